@@ -570,7 +570,8 @@ impl RankSelectInterleaved256 {
             if found_ones + word_popcount >= remaining_ones {
                 // The target bit is in this word
                 let needed_in_word = remaining_ones - found_ones;
-                let bit_pos = self.uint_select1_bmi2(word, needed_in_word + 1); // +1 for 1-indexed rank
+                // `needed_in_word` is already a 1-based rank inside this word
+                let bit_pos = self.uint_select1_bmi2(word, needed_in_word);
 
                 if bit_pos < BITS_PER_WORD {
                     return Ok(line_start_bit + word_idx * BITS_PER_WORD + bit_pos);
